@@ -116,4 +116,13 @@ REG = {
   note="Trusted: TLC, FDecimal. sqrt/exp/ln/log to 15 digits are not decided yet (planned: bracket checks by trace validation).",
   technique="TLA+ decimal-arithmetic specification model-checked with TLC; exhaustive grid replay into the real evaluator",
   design="DESIGN.md section 4/C18"),
+ "C04": dict(
+  text="FDecimal is exact arithmetic on digit sequences (half-even rounding to 34 digits, exact remainder, literal parsing, float64 "
+       "nearness by integer comparison); TLC checks the oracle's own algebra (OracleSane) and computes every case of the grid "
+       "family for replay; seeded random 34-digit operands, chains and float64/int64 data recorded from the real evaluator are "
+       "validated event by event by Trace_Expr (sums/products computed, quotients/remainders checked by multiplication brackets, "
+       "the returned float64 checked as nearest / within 4 ulp).",
+  note="Trusted: TLC, decimal.Big.Decompose and math.Frexp for exact projections, math/big for the remainder witness (verified by TLC).",
+  technique="TLA+ exact decimal arithmetic model-checked with TLC; grid replay + TLC trace validation of recorded random arithmetic",
+  design="DESIGN.md section 4/C04"),
 }
